@@ -45,7 +45,8 @@ def run(ck, replay=None):
         for scen, n, quar in (("cells", n_cells, 1), ("heapres", 120 if quick else 400, 1),
                               ("mixed", 1500 if quick else 8000, 1), ("mixed", 1500 if quick else 8000, 0),
                               ("churn", 40 if quick else 400, 0), ("spurious_eintr", 100 if quick else 300, 1),
-                              ("spurious_wake", 100 if quick else 300, 1), ("exit_window", 100 if quick else 300, 1)):
+                              ("spurious_wake", 100 if quick else 300, 1), ("exit_window", 100 if quick else 300, 1),
+                              ("dropsweep", 100 if quick else 400, 1)):
             jobs.append(tp.native_job(exe, scen, ck.seed + 7 * i + len(jobs), n, quar, timeout=150 if quick else 1800))
             meta.append(("native", m, r, scen, None))
         log = tp.tmp_log("c06-cells")
